@@ -1578,3 +1578,224 @@ def c16_corr(res, exe, driver, tier, seed, tmp):
                 "must restore what IT found, not what the first read found).")
     for c, raw in list(zip(cases, raws))[:3]:
         res.samples.append({"keys": c.keys, "results": [l for l in raw["obs"] if l.startswith("R ")], "meta": {k: v for k, v in c.meta.items() if k != "between"}})
+
+
+# ---------------------------------------------------------------- C02: what the terminal shows
+
+import vt
+
+C02_TEXT = ["a", "b", "c", " ", " ", "x", "é", "日", "本", "😀", "́", "̈", ",", "(", "w", "m"]
+
+
+def gen_c02(rng, mode):
+    cmds = []
+    insert = True
+    for _ in range(rng.randint(3, 30)):
+        r = rng.random()
+        if mode == "emacs" or insert:
+            if r < 0.55:
+                c = rng.choice(C02_TEXT)
+                cmds.append(Cmd([c], "ins", c=ord(c), n=1))
+            elif r < 0.60:
+                cmds.append(Cmd(["C-v", "C-j"], "ins", c=LF, n=1))
+            elif r < 0.75:
+                cmds.append(Cmd([rng.choice(["Left", "Right", "Home", "End", "C-b", "C-f"] + (["M-b", "M-f", "C-a", "C-e"] if mode == "emacs" else []))], "motion"))
+            elif r < 0.85:
+                cmds.append(Cmd([rng.choice(["Backspace", "C-h", "Delete"])], "edit"))
+            elif r < 0.93:
+                cmds.append(Cmd([rng.choice(["C-k", "C-u", "C-w", "C-y", "C-_", "C-t", "Up", "Down", "C-l"] if mode == "emacs"
+                                            else ["C-u", "C-w", "Up", "Down"])], "edit"))
+            elif mode == "vi":
+                cmds.append(Cmd(["Esc"], "motion"))
+                insert = False
+            else:
+                cmds.append(Cmd([rng.choice(["M-u", "M-c", "M-t", "M-d"])], "edit"))
+        else:
+            if r < 0.5:
+                cmds.append(Cmd([rng.choice(["h", "l", "0", "$", "w", "b", "e", "j", "k"])], "motion"))
+            elif r < 0.75:
+                cmds.append(Cmd([rng.choice(["x", "X", "D", "p", "P", "u", "~"])], "edit"))
+            else:
+                cmds.append(Cmd([rng.choice(["i", "a", "A", "I"])], "motion"))
+                insert = True
+    cmds.append(Cmd(["F12"], "noop"))
+    cmds.append(Cmd(["Enter"], "enter"))
+    return cmds
+
+
+def c02_cases(tier, seed):
+    rng = random.Random(seed * 2003 + 41)
+    n = 3000 if tier == "thorough" else 260
+    cases = []
+    for _ in range(n):
+        mode = rng.choice(["emacs", "emacs", "vi"])
+        cols = rng.choice([4, 5, 8, 10, 12, 20, 20, 40, 80])
+        prompt = rng.choice(["", "> ", "日> ", ">> ", "\x1b[1;32m>>\x1b[0m "])
+        hist = [rng.choice(["one", "two words", "é日本", "l1\nl2\nl3", "x" * 25, "日" * 9]) for _ in range(rng.choice([0, 1, 2]))]
+        hints = ["abc def", "日本語", "x" * 30, "a b c d e f g h i j k"] if rng.random() < 0.3 else None
+        cmds = gen_c02(rng, mode)
+        # one chunk per command (a command may be several keys: C-v C-j)
+        chunks = []
+        for cmd in cmds:
+            b = b"".join(p_tty.key_bytes(k) for k in cmd.keys)
+            chunks.append(b)      # every intermediate screen is looked at (a state of a recorded class taints what follows)
+        cases.append(script_case(cmds, mode=mode, cols=cols, prompt=prompt, history=hist, hints=hints, chunks=chunks,
+                                 timeout=0 if mode == "vi" else rng.choice(["none", 0]),
+                                 initial=p_tty.mk_initial(rng, 0.25, C02_TEXT + ["\n"])))
+    return cases
+
+
+def strip_ansi(text):
+    """what a prompt with colour sequences shows"""
+    out, i = [], 0
+    while i < len(text):
+        if text[i] == 0x1b and i + 1 < len(text) and text[i + 1] == 0x5b:
+            j = i + 2
+            while j < len(text) and not (0x40 <= text[j] <= 0x7e):
+                j += 1
+            i = j + 1
+        else:
+            out.append(text[i])
+            i += 1
+    return out
+
+
+def eval_c02(res, cases_out, stream, width):
+    stats = {"points": 0, "screens_with_wrap": 0, "wide_at_margin": 0, "final": 0}
+    for (c, impl, model, raw) in cases_out:
+        t = Trace(c, impl)
+        if not t.ok or c.reads != 1:
+            continue
+        out = raw["out"]
+        a = out.find(b"\x1b[?2004h")
+        if a < 0:
+            continue
+        base = a + 8
+        try:
+            decoded = lambda b: [ord(ch) for ch in b.decode("utf-8")]
+            marks, omarks = raw["marks"], raw["obs_marks"]
+            obs_lines = [l for l in raw["obs"] if l.startswith("K ")]
+        except UnicodeDecodeError:
+            continue
+        prompt = strip_ansi([ord(ch) for ch in c.prompt])
+        scr = vt.Screen(c.cols, width)
+        fed = base
+        nobs_before = [sum(1 for l in raw["obs"][:m] if l.startswith("K ")) for m in omarks]
+        # marks[k] / omarks[k]: output length and observation count once chunk k-1 has been consumed (k=0: start-up)
+        for k in range(len(marks)):
+            end = marks[k]
+            if end < fed:
+                continue
+            try:
+                piece = decoded(out[fed:end])
+            except UnicodeDecodeError:
+                break
+            # stop before the end-of-read sequence
+            scr.feed(piece)
+            fed = end
+            j = nobs_before[k]                 # the next observation tells the state the screen must show now
+            if j >= len(t.steps):
+                continue
+            cmd, (text, pos), after, ob = t.steps[j]
+            hint = ob[5] or []
+            pre, suf = split_at(text, pos)
+            rows, cur, cur_next, exp = vt.layout(c.cols, width, prompt + pre, suf, hint)
+            if exp.known_class:
+                # recorded findings: rustyline's row arithmetic and the terminal disagree on these texts, and what is
+                # drawn afterwards is affected too: the rest of this script is not judged
+                stats[exp.known_class] = stats.get(exp.known_class, 0) + 1
+                break
+            stats["points"] += 1
+            if len(rows) > 1:
+                stats["screens_with_wrap"] += 1
+            res.nontrivial.add((c.cols, enc(text), pos))
+            got = scr.text_rows()
+            why = None
+            if scr.flags:
+                why = "terminal: " + scr.flags[0]
+            elif got != rows:
+                why = "screen: after chunk %d the terminal shows %r, the prompt + line (+ hint) laid out on a blank screen is %r" % (k, got, rows)
+            elif scr.cursor() != cur and not (scr.pending and (scr.r + 1, 0) == cur and False):
+                if scr.cursor() == cur_next or cur == cur_next:
+                    why = "cursor: after chunk %d the terminal cursor is on cell %s, the logical cursor (byte %d of %r) is on cell %s" % (
+                        k, scr.cursor(), pos, "".join(chr(x) for x in text), cur)
+                else:
+                    why = "cursor: after chunk %d the terminal cursor is on cell %s, expected %s" % (k, scr.cursor(), cur)
+            if why is None and cur_next != cur:
+                stats["wide_at_margin"] += 1
+            if why:
+                fail_case(res, stream, t, why + "  [cols=%d prompt=%r text=%s pos=%d]" % (c.cols, c.prompt, enc(text), pos))
+                break
+        else:
+            # the read returned: the cursor is after the last character so that what the application prints starts on a fresh row
+            b = out.find(b"\x1b[?2004l", base)
+            if b > 0 and t.steps and t.steps[-1][2][0] == "line":
+                try:
+                    scr.feed(decoded(out[fed:]))
+                except UnicodeDecodeError:
+                    continue
+                line = t.steps[-1][2][1]
+                rows, cur, _, exp = vt.layout(c.cols, width, prompt + line, [], [])
+                if exp.known_class:
+                    continue
+                stats["final"] += 1
+                got = scr.text_rows()
+                if scr.flags:
+                    fail_case(res, stream, t, "terminal: " + scr.flags[0])
+                elif got != rows:
+                    fail_case(res, stream, t, "final: when the read returned the terminal showed %r, expected %r  [cols=%d]" % (got, rows, c.cols))
+                elif scr.cursor() != (cur[0] + 1, 0) or scr.pending:
+                    fail_case(res, stream, t, "final: when the read returned the cursor was on %s; the line ends on cell %s, so a fresh row starts at %s  [cols=%d text=%s]" % (
+                        scr.cursor(), cur, (cur[0] + 1, 0), c.cols, enc(line)))
+    return stats
+
+
+C02_WITNESS = {
+    "K_fullrow_lf": dict(cols=10, prompt=">> ", keys=["a", "b", "c", "d", "e", "f", "C-v", "C-j", "Left", "g", "F12"]),
+    "K_zw_after_lf": dict(cols=20, prompt="> ", keys=["a", "C-v", "C-j", "́", "x", "F12"]),
+}
+
+
+def c02_screen_of(exe, width, cols, prompt, keys):
+    """(terminal rows, terminal cursor, expected rows, expected cursor) once the keys have been handled"""
+    import ptydrive
+    c = Case(keys, cols=cols, prompt=prompt, timeout=0)
+    r = ptydrive.run_case(exe, c.spec(), p_tty.chunks_of(c.keys), cols=cols)
+    out = r["out"]
+    a = out.find(b"\x1b[?2004h") + 8
+    scr = vt.Screen(cols, width)
+    scr.feed([ord(ch) for ch in out[a:].decode("utf-8", "replace")])
+    last = [l for l in r["obs"] if l.startswith("K ")][-1].split()
+    text, pos = dec(last[1]), int(last[2])
+    pre, suf = split_at(text, pos)
+    rows, cur, _, exp = vt.layout(cols, width, [ord(ch) for ch in prompt] + pre, suf, [])
+    return scr.text_rows(), scr.cursor(), rows, cur
+
+
+def c02_known(res, exe, width):
+    known = {f["id"]: f for f in known_findings() if f["property"] == "C02" and f["status"] == "known"}
+    for kid, w in C02_WITNESS.items():
+        if kid not in known:
+            continue
+        got_rows, got_cur, rows, cur = c02_screen_of(exe, width, w["cols"], w["prompt"], w["keys"])
+        if got_rows != rows or got_cur != cur:
+            res.known_confirmed.append((kid, "%s: keys %s in %d columns: the terminal shows %r with the cursor on %s, expected %r with the cursor on %s" % (
+                known[kid]["what"][:90], " ".join(w["keys"][:-1]), w["cols"], got_rows, got_cur, rows, cur)))
+
+
+def c02_corr(res, exe, driver, tier, seed, tmp):
+    c02_known(res, exe, vt.Widths(ud_tables()))
+    cases = c02_cases(tier, seed)
+    out = run_tty_cases(res, exe, driver, cases, tmp, "screen")
+    width = vt.Widths(ud_tables())
+    stats = eval_c02(res, out, "screen", width)
+    res.distribution.update({"oracle": stats, "scripts": len(cases)})
+    res.rule = ("screen: emacs and vi scripts (text of width 0, 1 and 2, line breaks, motions, deletes, kills, yank, undo, history recall of "
+                "multi-line and over-wide entries, clear-screen, hints) in windows of 4 to 80 columns with plain, wide and coloured "
+                "prompts. (i) every byte written is compared with the render model (extracted Render.v inside the Editor model). (ii) "
+                "independently of that model a VT100 emulator written for this check interprets all bytes the implementation wrote; after "
+                "every chunk the screen from the anchor row down must equal the prompt + line + hint laid out on a blank screen by the "
+                "same emulator, nothing left over, and the cursor must be on the cell of the logical cursor; when the read returns the "
+                "cursor must be after the last character.")
+    for c, impl, model, raw in out[:3]:
+        res.samples.append({"keys": c.keys, "cols": c.cols, "impl": " ## ".join(impl)[:300]})
